@@ -1,15 +1,14 @@
 #!/bin/bash
-# Builds every check binary offline (normal and, where used, -race) so that a check only pays an incremental rebuild.
+# Builds every check binary offline so that a check only pays an incremental rebuild of whatever changed in /repo.
 set -u
 cd "$(dirname "$0")"
 export GOFLAGS=-mod=mod GOPROXY=off
-cp /repo/go.sum mc/go.sum
-mkdir -p .bin evidence replays
+mkdir -p .bin .work evidence replays
 (cd /repo && go build ./... ) || exit 1
-cd mc
-for d in cmd/*/; do
-  id=$(basename "$d")
-  if [ -x "$d/setup.sh" ]; then "$d/setup.sh" || exit 1; continue; fi
-  go build -tags verif -o "../.bin/$id" "./cmd/$id" || exit 1
+fail=0
+for d in mc/cmd/c[0-9][0-9]/; do
+  id=$(basename "$d" | tr 'a-z' 'A-Z')
+  ./check "$id" build || { echo "setup: build of $id failed"; fail=1; }
 done
-echo setup ok
+[ $fail = 0 ] && echo setup ok
+exit $fail
